@@ -89,14 +89,46 @@ func ifaceKey(t types.Type, method string) string {
 
 // ifaceContractCall applies the contract attached to an interface method.
 func (f *frame) ifaceContractCall(x ssa.CallInstruction, recv Val, args []Val, in string, st *State) (Val, bool) {
-	vc := f.vc
 	cc := x.Common()
 	key := ifaceKey(cc.Value.Type(), cc.Method.Name())
+	return f.abstractContractCall(key, cc.Method.Type().(*types.Signature), x, recv, args, in, st)
+}
+
+// funcFieldContractCall applies the contract attached to a function-typed
+// struct field ("pkg.Type.field") when the call goes through that field: the
+// field plays the role of an interface method, `recv` is the struct pointer.
+func (f *frame) funcFieldContractCall(x ssa.CallInstruction, args []Val, in string, st *State) (Val, bool) {
+	cc := x.Common()
+	ld, ok := cc.Value.(*ssa.UnOp)
+	if !ok {
+		return Val{}, false
+	}
+	fa, ok := ld.X.(*ssa.FieldAddr)
+	if !ok {
+		return Val{}, false
+	}
+	pt, ok := fa.X.Type().Underlying().(*types.Pointer)
+	if !ok {
+		return Val{}, false
+	}
+	st0, ok := pt.Elem().Underlying().(*types.Struct)
+	if !ok {
+		return Val{}, false
+	}
+	sig, ok := cc.Value.Type().Underlying().(*types.Signature)
+	if !ok {
+		return Val{}, false
+	}
+	key := ifaceKey(pt.Elem(), st0.Field(fa.Field).Name())
+	return f.abstractContractCall(key, sig, x, f.val(fa.X), args, in, st)
+}
+
+func (f *frame) abstractContractCall(key string, sig *types.Signature, x ssa.CallInstruction, recv Val, args []Val, in string, st *State) (Val, bool) {
+	vc := f.vc
 	spec := vc.Eng.Spec.Funcs[key]
 	if spec == nil {
 		return Val{}, false
 	}
-	sig := cc.Method.Type().(*types.Signature)
 	pre := st.Clone()
 	mkEnv := func(cur *State) *Env {
 		env := &Env{vc: vc, st: cur, old: pre, vars: map[string]Val{}, fn: f.fn}
